@@ -125,12 +125,17 @@ pub struct Lzma2Built {
 pub fn gen_lzma2(t: &mut Tape, max_total: u64, strict_order: bool) -> Lzma2Built {
     let mut w = Lzma2Writer::new();
     let mut note = String::new();
-    let n_chunks = match t.below(8) {
+    let mut n_chunks = match t.below(8) {
         0 => 0,
         1..=4 => t.range(1, 4),
         5 | 6 => t.range(2, 9),
         _ => 1,
     };
+    // now and then: very many tiny chunks (anything that counts chunks)
+    let tiny = max_total >= 500 && t.below(48) == 0;
+    if tiny {
+        n_chunks = [100u64, 255, 256, 257, 300][t.below(5) as usize];
+    }
     let mut need_dict_reset = true;
     let mut props_set = false;
     let mut total = 0u64;
@@ -148,7 +153,7 @@ pub fn gen_lzma2(t: &mut Tape, max_total: u64, strict_order: bool) -> Lzma2Built
             } else {
                 t.below(3) == 0
             };
-            let n = match t.below(8) {
+            let n = match if tiny { 1 } else { t.below(8) } {
                 0 => 1,
                 1 => t.range(1, 5),
                 7 if room >= 0x10000 && t.below(16) == 0 => 0x10000,
@@ -191,7 +196,7 @@ pub fn gen_lzma2(t: &mut Tape, max_total: u64, strict_order: bool) -> Lzma2Built
             let ts = w.enc.trace.len();
             w.begin_lzma_chunk(reset, new_props);
             ps.chunk_start_avail = w.enc.model.avail() as u64;
-            let target = match t.below(10) {
+            let target = match if tiny { 1 } else { t.below(10) } {
                 0 => 1,
                 1 => t.range(1, 4),
                 9 if room > 100_000 && t.below(8) == 0 => t.range(70_000, room.min(1 << 21)),
@@ -357,6 +362,10 @@ pub fn gen_xz_plan(t: &mut Tape, max_block: u64) -> XzPlan {
         6 => 2,
         _ => t.range(2, 6),
     };
+    // now and then: enough blocks for the index's record count to need two bytes
+    let many = t.below(40) == 0;
+    let nblocks = if many { [127u64, 128, 129, 200][t.below(4) as usize] } else { nblocks };
+    let max_block = if many { max_block.min(6) } else { max_block };
     let mut blocks = Vec::new();
     for _ in 0..nblocks {
         let b = if max_block >= 500 && t.below(12) == 0 {
